@@ -43,6 +43,11 @@ def run(ctx) -> None:
         ctx.reuse("C16.step-twins", c07.reject, dev)
         ctx.reuse("C16.step-twins", c06.wiring, dev)
         ctx.reuse("C16.step-twins", c06.iteration_space, dev)
+    # both copies settle the partitioning mode the same way (own arguments, in the same order, same default)
+    from . import c18
+
+    for dev in concrete_devices(ctx):
+        ctx.reuse("C16.order-twins", c18.wiring, dev)
     # both copies decide "same labware" the same way: by identity (a value-based __eq__ would split `==` from `is`)
     from .common import identity_eq_rule
 
